@@ -506,8 +506,8 @@ def gen_long_case(rng, stats, thorough, idx):
     for n in counts:
         phrase = rng.weighted([(("go",), 6), (("ten",), 2), (("go", "forward"), 2), (("forward", "ten"), 1),
                                (("go", "forward", "ten", "meters"), 1)])
-        if not thorough and n > 300:
-            phrase = ("go",)                      # quick tier: the shortest word (18 frames) for the longest results
+        if n > (600 if thorough else 300):
+            phrase = ("go",)                      # the shortest word (18 frames) for the longest results
         reps = (n + len(phrase) - 1) // len(phrase)
         words = (list(phrase) * reps)[:n]
         pieces = [{"src": "goforward.raw", "a": GOFORWARD_WORD_SPANS[w][0], "b": GOFORWARD_WORD_SPANS[w][1]} for w in words]
